@@ -276,6 +276,8 @@ pub struct World {
     /// set by `deliver` when the echo of the delivered message re-sends exactly its content
     pub echo_ctx: Option<(BitSet, BitSet)>,
     pub soft: Vec<Violation>,
+    /// origin of the local transaction being executed
+    pub cur_origin: Option<String>,
     pub cur_txn: Option<(usize, Option<String>)>,
 }
 
@@ -464,6 +466,7 @@ impl World {
             exposed: BitSet::new(),
             echo_ctx: None,
             soft: Vec::new(),
+            cur_origin: None,
             cur_txn: None,
         }
     }
@@ -755,6 +758,7 @@ impl World {
         ops: Option<Vec<Op>>,
         count: u32,
     ) -> Result<Vec<Op>, Violation> {
+        self.cur_origin = origin.clone();
         let pre = crate::monitors::pre_txn(self, n);
         let hs = yrs::verif::has_skips(self.nodes[n].doc.transact().store());
         self.nodes[n].had_skips = hs;
